@@ -29,7 +29,7 @@ ASSUMPTIONS = ["one edge per node pair (the store is a simple undirected graph, 
                "a == z is excluded from path-with-hops queries (the contract does not say what a zero-length "
                "path with hops is)",
                "any shortest / qualifying path is accepted (validity predicate), not one particular path"]
-BUDGET = {"quick": 2500, "thorough": 40000}
+BUDGET = {"quick": 2500, "thorough": 25000}
 ENUM_EXHAUSTIVE = True
 EXHAUSTIVE_NOTE = ("exhaustive over graphs with n<=3 nodes in quick and n<=4 in thorough (2 classes, 2 relations); "
                    "quick additionally runs every 8th n=4 graph")
